@@ -121,6 +121,12 @@ func (t *Tokenizer) Load(r io.Reader, handler oj.TokenHandler) (err error) {
 	}()
 	var cnt int
 	cnt, err = r.Read(buf)
+	// A BOM can be split over more than one read.
+	for 0 < cnt && cnt < 4 && err == nil && buf[0] == 0xEF {
+		var n int
+		n, err = r.Read(buf[cnt:])
+		cnt += n
+	}
 	buf = buf[:cnt]
 	t.mode = valueMap
 	if err != nil {
